@@ -275,6 +275,15 @@ fn single_frame_cases(frames: &[Frame], classes: &[String], rng: &mut Rng, thoro
             for new_len in [0u16, 1, (pay as u16).wrapping_sub(1), (pay as u16).wrapping_add(1), 0x7fff, 0xffff] {
                 push("hdr", vec![Op::Write { file, off: off + 4, bytes: new_len.to_le_bytes().to_vec() }]);
             }
+            // the boundary of the reader's over-long test: a declared extent that ends exactly at
+            // the block end, and 1..8 bytes beyond it
+            let room = BLOCK - (off % BLOCK) - 7;
+            for delta in -1i64..=8 {
+                let new_len = room as i64 + delta;
+                if (0..=0xffff).contains(&new_len) && new_len as usize != pay {
+                    push("hdr", vec![Op::Write { file, off: off + 4, bytes: (new_len as u16).to_le_bytes().to_vec() }]);
+                }
+            }
         }
     }
 }
